@@ -39,7 +39,7 @@ Case(i, v) ==
 Init == st = "type" /\ c \in {[ti |-> i] : i \in 1..Len(Zoo)}
 Next ==
   /\ st = "type" /\ st' = "case"
-  /\ \/ \E j \in 1..Len(Values(Zoo[c.ti])) : c' = Case(c.ti, Values(Zoo[c.ti])[j])
+  /\ \/ LET vs == Values(Zoo[c.ti]) \o ExtraVals(Zoo[c.ti]) IN \E j \in 1..Len(vs) : c' = Case(c.ti, vs[j])
      \/ IsBig(c.ti) /\ \E j \in 1..Len(BigLens) : c' = Case(c.ti, ListOfLen(Zoo[c.ti], BigLens[j]))
 Spec == Init /\ [][Next]_vars
 
